@@ -40,6 +40,25 @@
       (C10-1), `bgv.Evaluator.WithKey` dropped `ScaleInvariant` (C10-2),
       `mpckks.MaskedLinearTransformationProtocol.ShallowCopy` dropped `noise` (C10-3), `MetaData.CopyNew`
       shared `Scale`'s big numbers (C10-5: `Ciphertext/Plaintext.CopyNew` rows are now `owned`).
+    * rows added for the circuits / ring-packing / blind-rotation / ringqp layers and the remaining multiparty
+      constructors (second half of `table`).  `dft.Evaluator`, `mod1.Evaluator` and `blindrot.Evaluator` have no copy
+      constructor: their rows describe the copy idiom (`NewEvaluator` over a shallow copy of the ckks evaluator / a second
+      instance); `bootstrapping.Evaluator.ShallowCopy` rebuilds its dft and mod1 evaluators over the copy's own ckks
+      evaluator (harness probe `internal_wiring/…`: pointer identity of every inner evaluator) and has one row per
+      configuration of the optional fields (`[N1<N2]`: xPow2N1/xPow2InvN1 set, `[ConjugateInvariant]`: DomainSwitcher
+      set, `[SkDebug]`).
+    * findings of these rows (harness keys; patches under /verif/fixes, not applied — the rows describe the code as it is):
+        - `mpckks.MaskedLinearTransformationProtocol.WithParams` drops `noise` (class `dropped`, listed by
+          `incomplete_rows_eq`): the re-targeted protocol cannot be re-targeted again (nil distribution → panic).
+          Key `C10/mpckks.MaskedLinearTransformationProtocol.WithParams/drops-noise`, fix C10-7 (row becomes `config`).
+        - `ringqp.UniformSampler.AtLevel` shares buffers / read pointers / PRNG with the receiver (class `nestedScratch`,
+          listed by `not_concurrentSafe_rows_eq`) although its comment calls it "a shallow copy".
+          Key `C10/ringqp.UniformSampler.AtLevel/shares-state-undocumented`, fix C10-9 (documentation only).
+        - `ringqp.UniformSampler.WithPRNG` panics on a sampler without Q part, which every other method supports.
+          Key `C10/ringqp.UniformSampler.WithPRNG/nil-samplerQ`, fix C10-8 (the row is for the Q+P configuration).
+        - not a copy defect, found on the way: `bootstrapping.Evaluator.BootstrapMany` panics when it has to pack two or
+          more ciphertexts above level 0 (the original and its copy alike).
+          Key `C10/bootstrapping.BootstrapMany/packing-above-level-0-panics`, fix C10-10.
     * known finding kept: `rlwe.Encryptor.ShallowCopy` builds a fresh encryptor and therefore forgets a
       PRNG installed with `WithPRNG` (`C10/Encryptor.ShallowCopy/drops-WithPRNG`; in the table this is the
       `rng` class of `prng` and the `nested` samplers: by construction a shallow copy has fresh randomness).
@@ -144,13 +163,36 @@ def not_concurrentSafe_rows : List String :=
 theorem not_concurrentSafe_rows_eq : not_concurrentSafe_rows =
     ["rlwe.Evaluator.WithKey", "rlwe.Encryptor.WithKey",
      "rlwe.Encryptor.WithPRNG", "ring.UniformSampler.AtLevel", "ring.GaussianSampler.AtLevel",
-     "bgv.Evaluator.WithKey", "ckks.Evaluator.WithKey"] := by decide
+     "bgv.Evaluator.WithKey", "ckks.Evaluator.WithKey",
+     "ring.GaussianSampler.AtLevel[montgomery]", "ringqp.UniformSampler.AtLevel"] := by decide
+
+/-- every constructor appears once: `lookup` (what the driver prints for a `table` line) is unambiguous.
+    (TEST by evaluation of the table.) -/
+theorem table_names_nodup : (table.map (·.1)).Nodup := by decide
+
+/-- `lookup` returns a row of the table, and the first one with that name (with `table_names_nodup`: the one). -/
+theorem lookup_mem (name : String) (r : Row) (h : lookup name = some r) : (name, r) ∈ table := by
+  unfold lookup at h
+  cases hf : table.find? (·.1 == name) with
+  | none => simp [hf] at h
+  | some p =>
+    simp [hf] at h
+    have hm := List.mem_of_find?_eq_some hf
+    have hp := List.find?_some hf
+    have : p.1 = name := by simpa using hp
+    subst h
+    rw [← this]
+    exact hm
+
+example : lookup "ringqp.Ring.AtLevel" = some [("RingP", .nested), ("RingQ", .nested)] := by decide
 
 /-- the rows that are not complete copies (a field of the original is dropped or reset). -/
 def incomplete_rows : List String := (table.filter fun (_, r) => !r.complete).map (·.1)
 
 theorem incomplete_rows_eq : incomplete_rows =
-    ["ring.Ring.AtLevel"] := by decide   -- `level` is what AtLevel is meant to change
+    ["ring.Ring.AtLevel",   -- `level` is what AtLevel is meant to change
+     -- `noise` is dropped: a genuine defect (finding C10/mpckks.MaskedLinearTransformationProtocol.WithParams/drops-noise)
+     "mpckks.MaskedLinearTransformationProtocol.WithParams"] := by decide
 
 end Lattigo.Props.C10
 
@@ -159,5 +201,7 @@ end Lattigo.Props.C10
 #print axioms Lattigo.Props.C10.deep_copy_disjoint
 #print axioms Lattigo.Props.C10.noninterference
 #print axioms Lattigo.Props.C10.noninterference_needs_readonly_counterexample
+#print axioms Lattigo.Props.C10.table_names_nodup
+#print axioms Lattigo.Props.C10.lookup_mem
 #print axioms Lattigo.Props.C10.not_concurrentSafe_rows_eq
 #print axioms Lattigo.Props.C10.incomplete_rows_eq
